@@ -18,8 +18,15 @@ def main():
         rc = mod.replay(body)
         sys.exit(rc)
     ctx = Ctx(prop, a.tier, seed)
+    from .core import WorkerFailures
+
     try:
         mod.run(ctx)
+    except WorkerFailures as e:
+        print(f"[{prop}] checking code failed on what the library returned: {e}")
+        ctx.exhaustive = False
+        ctx.caps.append("run aborted after worker exceptions")
+        sys.exit(ctx.finish())
     except Exception:
         traceback.print_exc()
         print(f"[{prop}] INTERNAL ERROR in the checking machinery (not a property verdict)")
